@@ -588,6 +588,22 @@ class Program:
         except Exception:  # noqa: BLE001 - best effort; without it rules that depend on the helper's contents fail closed
             done = {}
         if done:
+            # the source-level view follows: the (typed HIR) body of a spliced helper is attached to the body of every
+            # function it was spliced into, under a key of its own - queries that walk a function's expressions see the
+            # helper's expressions too, structural accessors (stmts / expr) and the evaluator are not affected
+            by_path = {}
+            for u in units.values():
+                for h in u.get("hir", []):
+                    if isinstance(h, dict) and h.get("path") and isinstance(h.get("body"), dict):
+                        by_path.setdefault(h["path"], h)
+            for helper, callers in done.items():
+                hh = by_path.get(helper)
+                if hh is None:
+                    continue
+                for cp in callers:
+                    ch = by_path.get(cp)
+                    if ch is not None and ch is not hh and not any(x is hh["body"] for x in ch["body"].get("spliced", [])):
+                        ch["body"].setdefault("spliced", []).append(hh["body"])
             self._init(units)
             self.inlined = done
 
